@@ -233,6 +233,30 @@ def check_delegation(rep, facts):
     (rep.ok if core == [E.CONSUME_STREAM] else rep.violation)("R9.1", "consume/delegates", "consume(amt) = parser.consume_stream(amt)" if core == [E.CONSUME_STREAM] else "consume calls %s" % core, cb.loc())
 
 
+def accessor_reports(facts, model):
+    """The public accessor is_writeable() returns true exactly for the `raised` variant of the enum form of the flag."""
+    b = facts.body("async_io::Request::is_writeable", required=False)
+    if b is None:
+        return False
+    import paths
+    g = ieg.IEG(facts, b, inline_filter=lambda x: False)
+    tab = {}
+    for r in paths.rows(g):
+        if r.end != 'return' or r.ret is None:
+            continue
+        ret = ir.peel(r.ret)
+        if ret[0] == 'call' and ret[1].endswith("PartialEq>::eq") and len(ret[2]) == 2:
+            vs = [variant_of(a) for a in ret[2]]
+            fl = [ir.peel(a)[0] == 'field' and ir.peel(a)[2] == 'writeable' for a in ret[2]]
+            return any(fl) and model[1] in vs
+        c = cv(ret)
+        for (e, lab, n) in r.conds:
+            tr = common.writeable_truth(facts, ir.simplify(e), lab)
+            if tr is not None and c is not None:
+                tab[tr] = c
+    return tab == {True: 1, False: 0}
+
+
 def check_writeable(rep, facts):
     """R9.4 / R9.5 / R9.6."""
     acc = F.field_accesses(facts, "async_io::Request", "writeable")
@@ -242,7 +266,10 @@ def check_writeable(rep, facts):
         for si, st in enumerate(b.blocks[bi]["st"]):
             if st["k"] == "assign" and any(el.get("n") == "writeable" for el in st["place"].get("p", [])):
                 v = r.rvalue(st["rv"], (bi, si))
-                if cv(v) != 1:
+                model = common.writeable_model(facts)
+                # "raised": the bool true -- or, when a private enum replaced the bool, the variant the public accessor reports as writeable
+                raised_ok = cv(v) == 1 or (model is not None and model[0] == 'v' and variant_of(v) == model[1] and accessor_reports(facts, model))
+                if not raised_ok:
                     rep.violation("R9.4", "writeable-write-value/%s" % b.npath, "the flag is assigned %s; it may only be raised" % ir.show(v)[:40], "%s:%d" % (sp["f"], sp["l"]))
     wfuncs = sorted({b.npath for (b, bi, how, sp) in writers})
     if not wfuncs:
@@ -303,7 +330,7 @@ def check_writeable(rep, facts):
                 de = evv.switch_expr(n)
                 x = ir.peel(de, casts=False) if de is not None else None
                 t = isinstance(lab, tuple) and (lab[0] == 'otherwise' or (lab[0] == 'case' and lab[1] != 0))
-                if x is not None and x[0] == 'field' and x[2] == 'writeable' and t:
+                if common.writeable_truth(facts, de, lab) is True:
                     gens.add("W")
                 if x is not None and x[0] == 'call' and x[1].endswith("::contains") and any(y[0] == 'call' and y[1].endswith("Role::output_streams") for y in ir.walk(x)) and t:
                     gens.add("MEMBER")
